@@ -55,7 +55,7 @@ HTML_BLOCKS = [
     (7, ['</custom>']), (6, ['<p align="x">', '*not emphasis*']), (2, ['<!-- one line -->']), (1, ['<style>p{}</style>']),
     (1, ['<textarea>', '', '</textarea>']), (6, ['<hr />']),
     # tag names are matched in any case
-    (1, ['<SCRIPT>', '', 'a', '</SCRIPT>']), (1, ['<Pre>', '', '*x*', '</PRE>']), (6, ['<DIV>', 'y', '</DIV>']), (1, ['<STYLE>', '', 'p{}', '</style>']),
+    (1, ['<pre\tclass="x">', '', 'a', '</pre>']), (1, ['<SCRIPT>', '', 'a', '</SCRIPT>']), (1, ['<Pre>', '', '*x*', '</PRE>']), (6, ['<DIV>', 'y', '</DIV>']), (1, ['<STYLE>', '', 'p{}', '</style>']),
 ]
 MARKER_LIKE = ['> q', '# h', '- l', '+ p', '1. x', '2) y', '***', '---', '[a]: b', '===', '>']
 EXACT_LABELS = ['a\\]b', 'x\\\ny', 'p\\[q\\]', 'two\nlines', 'back\\\\slash']
@@ -489,7 +489,7 @@ def gen_setext(c):
     n = 3 if c.canonical else t.choice([1, 2, 3, 7, 20])
     if ch == '-' and n == 1:
         n = 2
-    return N('setext', level=level, inl=inl, ulen=n, utrail='' if c.canonical else t.choice(['', '', '  ']),
+    return N('setext', level=level, inl=inl, ulen=n, utrail='' if c.canonical else t.choice(['', '', '  ', '\t', ' \t ']),
              uindent=0 if c.canonical else t.weighted([(4, 0), (1, 2), (1, 3)]))
 
 
